@@ -949,7 +949,7 @@ pub fn run_one(scn: &Value) -> Vec<Value> {
             }
         }
     }
-    log.push(json!({"ev": "reset", "scn": scn["id"], "role": role, "cfg": cfg, "meta": meta}));
+    log.push(json!({"ev": "reset", "scn": scn["id"], "role": role, "cfg": cfg, "meta": meta, "wt": cfg["wt"].as_bool().unwrap_or(false)}));
     let mk_net = |r: Role, tag: &'static str, c: &Value| {
         let n = Net::new(r, tag, log.clone());
         {
@@ -1169,7 +1169,7 @@ pub fn run_scenarios(inp: &str, out: &str) -> Result<(), String> {
         let scn: Value = serde_json::from_str(&line).map_err(|e| format!("line {}: {e}", i + 1))?;
         let evs = match std::panic::catch_unwind(std::panic::AssertUnwindSafe(|| run_one(&scn))) {
             Ok(e) => e,
-            Err(_) => vec![json!({"ev": "reset", "scn": scn["id"]}), json!({"ev": "harness_panic"})],
+            Err(_) => vec![json!({"ev": "reset", "scn": scn["id"], "wt": false}), json!({"ev": "harness_panic"})],
         };
         for e in evs {
             writeln!(wr, "{}", e).map_err(|e| e.to_string())?;
